@@ -382,6 +382,11 @@ impl<T: Copy> Buffer<T> {
     ///
     /// Will only be called from the read buffer.
     pub(in crate::circular_buffer) fn consume(&self, n: usize) {
+        if n == 0 {
+            // Consuming nothing must not discard any tags. Without this the
+            // wrap-around branch below (newpos == rpos) matches every tag.
+            return;
+        }
         let (lock, cv) = &*self.state;
         let mut s = lock.lock().unwrap();
         assert!(
